@@ -498,13 +498,13 @@ func padLeft(value, width, pad any) (any, error) {
 		}
 	}
 
-	if len(p) != 1 {
+	if utf8.RuneCountInString(p) != 1 {
 		return nil, &padLengthError{
 			pad: p,
 		}
 	}
 
-	n := w - len(s)
+	n := w - utf8.RuneCountInString(s)
 	if n <= 0 {
 		return value, nil
 	}
@@ -565,13 +565,13 @@ func padRight(value, width, pad any) (any, error) {
 		}
 	}
 
-	if len(p) != 1 {
+	if utf8.RuneCountInString(p) != 1 {
 		return nil, &padLengthError{
 			pad: p,
 		}
 	}
 
-	n := w - len(s)
+	n := w - utf8.RuneCountInString(s)
 	if n <= 0 {
 		return value, nil
 	}
@@ -624,7 +624,7 @@ func padSpaceLeft(value, width any) (any, error) {
 		}
 	}
 
-	n := w - len(s)
+	n := w - utf8.RuneCountInString(s)
 	if n <= 0 {
 		return value, nil
 	}
@@ -677,7 +677,7 @@ func padSpaceRight(value, width any) (any, error) {
 		}
 	}
 
-	n := w - len(s)
+	n := w - utf8.RuneCountInString(s)
 	if n <= 0 {
 		return value, nil
 	}
